@@ -7,6 +7,8 @@
 #include "common.h"
 #include <new>
 #include <set>
+#include <algorithm>
+#include <cstring>
 #include <potassco/theory_data.h>
 #include "rec.h"
 
@@ -126,6 +128,68 @@ static void dump(Obs& o, const TheoryData& d, const IdVec& probes) {
 	o.add(g_n);
 }
 
+// ---- provenance of arguments -------------------------------------------------------------------------------------
+// An id list / a symbol handed to the store is a VALUE.  Whenever the requested list (symbol) EQUALS what the store itself
+// currently holds for some item, the harness passes the store's own memory instead of a caller-owned copy:
+// getTerm(i).begin() / getElement(i).begin() / (*atom)->begin() / getTerm(i).symbol() - in particular for the SAME id that
+// the call re-defines (td.addTerm(id, newName, td.getTerm(id).terms()) after update()).  Same list, other provenance: the
+// Coq model and the python oracle are not concerned.  Decided per case by a hash of the case (props/C12.py alias_mode):
+//   0 never (caller-owned arrays only)   1, 3 the item being re-defined first, then any other stored item
+//   2 another stored item first (a term's arguments, an element's terms, an atom's elements), then the item itself
+struct Own {
+	const TheoryData& d; int mode; std::vector<Id_t> kT, kE;
+	Own(const TheoryData& data, int m) : d(data), mode(m) {}
+	static void note(std::vector<Id_t>& k, Id_t id) { if (std::find(k.begin(), k.end(), id) == k.end()) k.push_back(id); }
+	static bool same(const Id_t* b, size_t n, const IdVec& I) { return n == I.size() && std::equal(I.begin(), I.end(), b); }
+	const Id_t* ofTerm(Id_t i, const IdVec& I) const {
+		if (!d.hasTerm(i)) return 0;
+		const TheoryTerm& t = d.getTerm(i);
+		return t.type() == Theory_t::Compound && same(t.begin(), t.size(), I) ? t.begin() : 0;
+	}
+	const Id_t* ofElem(Id_t i, const IdVec& I) const {
+		if (!d.hasElement(i)) return 0;
+		const TheoryElement& e = d.getElement(i);
+		return same(e.begin(), e.size(), I) ? e.begin() : 0;
+	}
+	const Id_t* other(const IdVec& I, int selfKind, Id_t self) const {
+		for (size_t k = kT.size(); k--;) { if (selfKind == 1 && kT[k] == self) continue; if (const Id_t* p = ofTerm(kT[k], I)) return p; }
+		for (size_t k = kE.size(); k--;) { if (selfKind == 2 && kE[k] == self) continue; if (const Id_t* p = ofElem(kE[k], I)) return p; }
+		for (TheoryData::atom_iterator it = d.end(); it != d.begin();) { --it; if (same((*it)->begin(), (*it)->size(), I)) return (*it)->begin(); }
+		return 0;
+	}
+	// selfKind: 1 the call (re-)defines term `self`, 2 element `self`, 0 neither (atoms)
+	IdSpan span(const IdVec& I, int selfKind, Id_t self) const {
+		const Id_t* p = 0;
+		if (mode != 0 && !I.empty()) {
+			const Id_t* mine = selfKind == 1 ? ofTerm(self, I) : selfKind == 2 ? ofElem(self, I) : 0;
+			p = mode == 2 ? other(I, selfKind, self) : mine;
+			if (!p) p = mode == 2 ? mine : other(I, selfKind, self);
+		}
+		return p ? Potassco::toSpan(p, I.size()) : Potassco::toSpan(I);
+	}
+	// a stored symbol with exactly the bytes of S (cstr: as a C string), the term being re-defined first
+	const char* symbol(const std::string& S, bool cstr, Id_t self) const {
+		if (mode == 0) return 0;
+		auto of = [&](Id_t i) -> const char* {
+			if (!d.hasTerm(i)) return 0;
+			const TheoryTerm& t = d.getTerm(i);
+			if (t.type() != Theory_t::Symbol) return 0;
+			const char* y = t.symbol();
+			if (cstr) return std::strcmp(y, S.c_str()) == 0 ? y : 0;
+			return std::strlen(y) == S.size() && std::memcmp(y, S.data(), S.size()) == 0 ? y : 0;
+		};
+		const char* mine = of(self);
+		if (mine && mode != 2) return mine;
+		for (size_t k = kT.size(); k--;) { if (kT[k] != self) { if (const char* y = of(kT[k])) return y; } }
+		return mine;
+	}
+};
+static int aliasMode(const Case& c) {
+	unsigned long long h = 0;
+	for (size_t i = 0; i != c.v.size(); ++i) h += ((unsigned long long)c.v[i] & 0xffffffffull) * (i + 1);
+	return (int)((h & 0xffffffffull) % 4);
+}
+
 int main() {
 	Case c; Obs o;
 	while (readCase(c)) {
@@ -133,26 +197,32 @@ int main() {
 		{ size_t np = (size_t)c.next(); for (size_t i = 0; i != np; ++i) probes.push_back((Id_t)c.next()); }
 		g_n = 0;
 		TheoryData* d = new TheoryData();   // g_lib is off: the Data block itself is not counted
+		Own own(*d, aliasMode(c));
 		auto ids = [&](IdVec& v) { size_t n = (size_t)c.next(); v.clear(); for (size_t i = 0; i != n && c.more(); ++i) v.push_back((Id_t)c.next()); };
 		bool stop = false;
 		while (c.more() && !stop) {
 			ll op = c.next();
 			IdVec I; std::string S; int e = 0; Obs extra;
 			switch (op) {
-				case 1: { Id_t id = (Id_t)c.next(); int n = (int)c.next(); e = guarded([&] { d->addTerm(id, n); }); break; }
-				case 2: { Id_t id = (Id_t)c.next(); size_t n = (size_t)c.next(); S = c.bytes(n); e = guarded([&] { d->addTerm(id, toSpan(S)); }); break; }
-				case 3: { Id_t id = (Id_t)c.next(); size_t n = (size_t)c.next(); S = c.bytes(n); e = guarded([&] { d->addTerm(id, S.c_str()); }); break; }
-				case 4: { Id_t id = (Id_t)c.next(); Id_t f = (Id_t)c.next(); ids(I); e = guarded([&] { d->addTerm(id, f, toSpan(I)); }); break; }
-				case 5: { Id_t id = (Id_t)c.next(); int ty = (int)c.next(); ids(I); e = guarded([&] { d->addTerm(id, Tuple_t(ty), toSpan(I)); }); break; }
+				case 1: { Id_t id = (Id_t)c.next(); int n = (int)c.next(); e = guarded([&] { d->addTerm(id, n); }); Own::note(own.kT, id); break; }
+				case 2: { Id_t id = (Id_t)c.next(); size_t n = (size_t)c.next(); S = c.bytes(n); const char* y = own.symbol(S, false, id);
+					e = guarded([&] { if (y) d->addTerm(id, toSpan(y, S.size())); else d->addTerm(id, toSpan(S)); }); Own::note(own.kT, id); break; }
+				case 3: { Id_t id = (Id_t)c.next(); size_t n = (size_t)c.next(); S = c.bytes(n); const char* y = own.symbol(S, true, id);
+					e = guarded([&] { d->addTerm(id, y ? y : S.c_str()); }); Own::note(own.kT, id); break; }
+				case 4: { Id_t id = (Id_t)c.next(); Id_t f = (Id_t)c.next(); ids(I); IdSpan A = own.span(I, 1, id);
+					e = guarded([&] { d->addTerm(id, f, A); }); Own::note(own.kT, id); break; }
+				case 5: { Id_t id = (Id_t)c.next(); int ty = (int)c.next(); ids(I); IdSpan A = own.span(I, 1, id);
+					e = guarded([&] { d->addTerm(id, Tuple_t(ty), A); }); Own::note(own.kT, id); break; }
 				case 6: { Id_t id = (Id_t)c.next(); e = guarded([&] { d->removeTerm(id); }); break; }
-				case 7: { Id_t id = (Id_t)c.next(); ids(I); Id_t cond = (Id_t)c.next();
-					if (cond == TheoryData::COND_DEFERRED) e = guarded([&] { d->addElement(id, toSpan(I)); });   // default argument
-					else e = guarded([&] { d->addElement(id, toSpan(I), cond); });
-					break; }
+				case 7: { Id_t id = (Id_t)c.next(); ids(I); Id_t cond = (Id_t)c.next(); IdSpan A = own.span(I, 2, id);
+					if (cond == TheoryData::COND_DEFERRED) e = guarded([&] { d->addElement(id, A); });   // default argument
+					else e = guarded([&] { d->addElement(id, A, cond); });
+					Own::note(own.kE, id); break; }
 				case 8: { Id_t id = (Id_t)c.next(); Id_t cond = (Id_t)c.next(); e = guarded([&] { d->setCondition(id, cond); }); break; }
-				case 9: { Id_t a = (Id_t)c.next(); Id_t t = (Id_t)c.next(); ids(I); e = guarded([&] { d->addAtom(a, t, toSpan(I)); }); break; }
-				case 10: { Id_t a = (Id_t)c.next(); Id_t t = (Id_t)c.next(); ids(I); Id_t g = (Id_t)c.next(); Id_t r = (Id_t)c.next();
-					e = guarded([&] { d->addAtom(a, t, toSpan(I), g, r); }); break; }
+				case 9: { Id_t a = (Id_t)c.next(); Id_t t = (Id_t)c.next(); ids(I); IdSpan A = own.span(I, 0, 0);
+					e = guarded([&] { d->addAtom(a, t, A); }); break; }
+				case 10: { Id_t a = (Id_t)c.next(); Id_t t = (Id_t)c.next(); ids(I); Id_t g = (Id_t)c.next(); Id_t r = (Id_t)c.next(); IdSpan A = own.span(I, 0, 0);
+					e = guarded([&] { d->addAtom(a, t, A, g, r); }); break; }
 				case 11: e = guarded([&] { d->update(); }); break;
 				case 12: e = guarded([&] { d->reset(); }); break;
 				case 13: { ll m = c.next(), r = c.next(); if (m < 1) m = 1;
